@@ -502,8 +502,9 @@ class Path:
 
 
 class Executor:
-    def __init__(self, prog, eff, inline=(), max_paths=MAX_PATHS, loop_bound=1):
+    def __init__(self, prog, eff, inline=(), max_paths=MAX_PATHS, loop_bound=1, arith_events=False):
         self.prog, self.eff = prog, eff
+        self.arith_events = arith_events
         self.inline = set(inline)
         self.max_paths = max_paths
         self.loop_bound = loop_bound
@@ -722,6 +723,8 @@ class Executor:
             a = T(ops[0])
             b = T(ops[1]) if len(ops) > 1 else None
             bits = type_bits(ins.type)
+            if self.arith_events and bits == 64 and op in ("add", "sub", "mul", "shl") and b is not None:
+                st.events.append(Event("arith", ins, f, (a, b), None, len(st.facts), op, "arith", None, depth))
             if op == "ashr" and b is not None and is_const(a) and is_const(b) and bits and not (a[1] >> (bits - 1)):
                 return ("c", a[1] >> b[1] if b[1] < 128 else 0)
             if b is not None and is_const(a) and is_const(b) and bits and op in ("add", "sub", "mul", "and", "or", "xor", "shl", "lshr"):
